@@ -432,7 +432,7 @@ fn cmd_strategy() -> BoxedStrategy<Cmd> {
     .boxed()
 }
 
-fn queue_strategy() -> BoxedStrategy<Case> {
+pub fn queue_strategy() -> BoxedStrategy<Case> {
     (
         iftable(2),
         prop::collection::vec((cmd_strategy(), prop::bool::weighted(0.25), 0u8..3), 0..10),
